@@ -1,12 +1,23 @@
 """C15 A preimage is released only for a fully and correctly paid invoice.
 
 spec/InvoiceRegistry: the exit-hop settlement logic (NotifyExitHopHtlc first time / replay, SettleHodlInvoice,
-CancelInvoice, MPP auto-release timers, block height) over two invoices of seven kinds and 3 circuit keys.
+CancelInvoice, MPP auto-release timers, the interceptor client's CancelSet, block height) over two invoices of seven
+kinds, HTLCs of five payload classes (legacy, MPP, AMP, keysend, blinded path) and 3-4 circuit keys whose concrete
+(short channel id, HTLC id) values follow one of six patterns (confirmed / alias scids >= 2^63, the int64 boundary,
+2^64-1, large HTLC ids, keys differing in one component only).
   (a) TLC checks the property's invariants / action properties exhaustively per pair of invoice kinds;
   (b) TLC -simulate generates behaviours, (c) the executor replays them on the REAL InvoiceRegistry on the KV store
       and on SQLite (same schedules, same trace spec) and a seeded free-running driver lets two links notify
       concurrently; (d) TLC validates every recorded answer against the same spec (concurrent blocks: some
       interleaving must explain all answers); (e) negative controls.
+Parts of the executed/validated behaviours (the first component of a violation key):
+  replay    general mix (InvoiceRegistryGen Focus="all")
+  holdsets  hold invoices whose MPP / blinded-path sets lose shards (MPP timeout, CancelSet) before a retry completes
+            them, then SettleHodlInvoice / CancelInvoice (Focus="holdsets")
+  free      seeded free-running driver with concurrent blocks
+In every part the projection compared is the invoice READ BACK FROM THE STORE after each event; besides the comparison
+with the model (Conform*) the trace spec evaluates the property's clauses about recorded state on that projection
+(StoreResAgree, StoreAmtPaidExact, StoreStatesAgree, StoreForward).
 Deviation D1 (keysend replay after the height moved) is probed by a fixed schedule and reported with its own key.
 """
 import copy
@@ -23,13 +34,16 @@ LEVEL = "model_checking"
 HARNESS = ["invoices/c15_test.go"]
 D1_KEY = "replay:keysend-expiry-precheck"
 
-# (k1, k2, NC, Amts): full closure of the model for that pair of invoice kinds (measured: 4k - 100k states each)
+# (k1, k2, NC, Amts): full closure of the model for that pair of invoice kinds
 FULL = "{3, 2, 4, 5}"
-MC_QUICK = [("regular", "hold", 3, FULL), ("zeroamt", "keysend", 2, FULL), ("noaddr", "holdna", 3, FULL),
-            ("amp", "regular", 2, FULL)]
-MC_THOROUGH = MC_QUICK + [("zeroamt", "keysend", 3, FULL), ("regular", "regular", 3, FULL),
-                          ("keysend", "holdna", 3, FULL), ("amp", "amp", 2, FULL), ("keysend", "amp", 2, FULL),
-                          ("holdna", "amp", 2, FULL), ("amp", "regular", 3, "{2, 4}")]
+HALF = "{2, 4}"
+MC_QUICK = [("regular", "hold", 3, HALF), ("regular", "hold", 2, FULL), ("zeroamt", "keysend", 2, FULL),
+            ("noaddr", "holdna", 3, HALF), ("amp", "regular", 2, FULL)]
+MC_THOROUGH = MC_QUICK + [("regular", "hold", 3, FULL), ("noaddr", "holdna", 3, FULL), ("hold", "hold", 3, HALF),
+                          ("zeroamt", "keysend", 3, FULL), ("regular", "regular", 3, HALF),
+                          ("keysend", "holdna", 3, HALF), ("amp", "amp", 2, FULL), ("keysend", "amp", 2, FULL),
+                          ("holdna", "amp", 2, FULL), ("amp", "regular", 3, HALF)]
+PARTS = {"trace": "replay", "hold": "holdsets", "free": "free"}
 
 
 def q(s):
@@ -53,8 +67,10 @@ def split_traces(recs):
 
 
 def compact(r):
-    keep = {k: r[k] for k in ("a", "th", "c", "k", "pl", "h", "ad", "amt", "tot", "exp", "set", "good", "ht")
+    keep = {k: r[k] for k in ("a", "th", "c", "k", "pl", "h", "ad", "amt", "tot", "exp", "set", "good", "cs", "ht")
             if r.get(k) not in (0, "", "none", None)}
+    if r.get("a") == "Reset":
+        keep["kp"] = r.get("kp")
     keep["res"] = r.get("res")
     if r.get("why"):
         keep["why"] = r["why"]
@@ -210,6 +226,138 @@ def negative_controls(ck, seq_recs, par_recs, quirk):
     ck.cov["negative_controls"] = ctl
 
 
+def big_chan(kc):
+    """value classes of a circuit key whose short channel id is >= 2^63 (alias / zero-conf scids and above)"""
+    return kc["ch"] in ("i63", "alias", "alias2", "max")
+
+
+def new_part_controls(ck, recs, quirk):
+    """Negative controls of the circuit-key / blinded-path / hold-set parts: one recorded field of a valid trace is
+    corrupted the way a defect of that class would show up; the validator must reject it."""
+    ctl = ck.cov["negative_controls"]
+
+    def run_ctl(name, bad, what, want=None):
+        p = os.path.join(ck.out, "control_%s.ndjson" % name)
+        core.write_ndjson(p, bad)
+        v = validate_seq(ck, p, quirk, "control_%s" % name)
+        if v["ok"]:
+            raise Inconclusive("negative control (%s) accepted: trace validation is not binding" % name)
+        if want and want not in (v["invariant"] or ""):
+            raise Inconclusive("negative control (%s) rejected by %s, expected %s" % (name, v["invariant"], want))
+        ctl.append(dict(mutation=what, rejected_by=v["invariant"], at_line=v["line"]))
+
+    # 1. circuit keys: an HTLC under a key with a channel id >= 2^63 is canceled / settled in this event - the store
+    #    "did not persist" the change (the projection keeps the HTLC accepted from here on)
+    done = False
+    for st in ("sql", "kv"):
+        for tr in split_traces(recs[("trace", st)])[1:] + split_traces(recs[("hold", st)]):
+            kcs = tr[0]["ck"]
+            for i in range(1, len(tr)):
+                if tr[i]["th"] != 0 or tr[i]["a"] in ("Par", "Join"):
+                    continue
+                hit = [(k, d) for k in range(2) for d in range(len(kcs)) if big_chan(kcs[d])
+                       and tr[i - 1]["inv"][k]["h"][d]["st"] == "accepted"
+                       and tr[i]["inv"][k]["h"][d]["st"] in ("canceled", "settled")]
+                if not hit:
+                    continue
+                bad = copy.deepcopy(tr)
+                k, d = hit[0]
+                for r in bad[i:]:
+                    r["inv"][k]["h"][d]["st"] = "accepted"
+                run_ctl("keys_%s" % st, bad, "%s store, key pattern %s: the %s of the HTLC under circuit key %s at line %d is "
+                        "not persisted (store projection keeps it accepted)" % (
+                            st, tr[0]["kp"], tr[i]["inv"][k]["h"][d]["st"], json.dumps(kcs[d]), i + 1))
+                done = True
+                break
+            if done:
+                break
+        if done:
+            break
+    if not done:
+        raise Inconclusive("no state change of an HTLC under a circuit key with channel id >= 2^63 was executed")
+
+    # 2. blinded path: an accepted / settled blinded-path HTLC answered with a failure, and a failed one with a settle
+    done = set()
+    for tr in split_traces(recs[("trace", "kv")])[1:] + split_traces(recs[("hold", "kv")]):
+        for i, r in enumerate(tr):
+            if r["a"] != "Notify" or r["pl"] != "blinded" or r["th"] != 0:
+                continue
+            mut = "blinded_ok" if r["res"] in ("accept", "settle") else "blinded_fail" if r["res"] == "fail" else None
+            if not mut or mut in done:
+                continue
+            bad = copy.deepcopy(tr)
+            if mut == "blinded_ok":
+                bad[i]["res"], bad[i]["why"] = "fail", "payment address mismatch"
+            else:
+                bad[i]["res"], bad[i]["why"] = "settle", "settled"
+            run_ctl(mut, bad, "blinded-path HTLC at line %d: answer %s turned into %s" % (i + 1, r["res"], bad[i]["res"]))
+            done.add(mut)
+        if len(done) == 2:
+            break
+    if len(done) < 2:
+        raise Inconclusive("blinded-path HTLCs were not executed in both outcome classes (%s)" % sorted(done))
+
+    # 3. hold sets: SettleHodlInvoice of an invoice that carries a canceled shard - the amount paid also counts it
+    done = False
+    for tr in split_traces(recs[("hold", "kv")]):
+        for i, r in enumerate(tr):
+            if r["a"] != "Settle" or r["res"] != "ok":
+                continue
+            x = r["inv"][r["k"] - 1]
+            can = [h["amt"] for h in x["h"] if h["st"] == "canceled"]
+            if x["st"] != "settled" or not can:
+                continue
+            bad = copy.deepcopy(tr)
+            for q in bad[i:]:
+                q["inv"][r["k"] - 1]["paid"] += can[0]
+            run_ctl("hold_paid", bad, "hold invoice settled at line %d with a canceled shard: AmtPaid + the canceled "
+                    "shard's amount" % (i + 1), want="StoreAmtPaidExact")
+            done = True
+            break
+        if done:
+            break
+    if not done:
+        raise Inconclusive("no hold invoice with an earlier canceled shard was settled in the holdsets part")
+
+
+def class_counts(recs):
+    """Measured coverage of the behaviour classes (for the evidence and as vacuity guard)."""
+    out = dict(blinded_htlcs={}, cancel_set_events=0, key_patterns={}, htlc_state_changes_chan_ge_2_63={"kv": 0, "sql": 0},
+               htlc_state_changes_htlcid_ge_2_63={"kv": 0, "sql": 0}, hold_settled_with_canceled_shard=0,
+               hold_canceled_with_canceled_shard=0, accepted_after_canceled_shard=0, legacy_with_total=0)
+    for (kind, st), rs in recs.items():
+        for tr in split_traces(rs):
+            kcs = tr[0].get("ck") or []
+            out["key_patterns"][tr[0].get("kp")] = out["key_patterns"].get(tr[0].get("kp"), 0) + 1
+            for i, r in enumerate(tr):
+                if r["a"] in ("Notify", "Replay") and r["pl"] == "blinded":
+                    out["blinded_htlcs"][r["res"]] = out["blinded_htlcs"].get(r["res"], 0) + 1
+                if r["a"] == "Notify" and r.get("cs") == 1:
+                    out["cancel_set_events"] += 1
+                if r["a"] == "Notify" and r["pl"] == "legacy" and r["tot"] > 0:
+                    out["legacy_with_total"] += 1
+                if i == 0 or r["a"] in ("Par",) or r["th"] != 0:
+                    continue
+                for k in range(2):
+                    x = r["inv"][k]
+                    for d, h in enumerate(x["h"]):
+                        was = tr[i - 1]["inv"][k]["h"][d]["st"]
+                        if was == "accepted" and h["st"] in ("canceled", "settled") and d < len(kcs):
+                            if big_chan(kcs[d]):
+                                out["htlc_state_changes_chan_ge_2_63"][st] += 1
+                            if kcs[d]["id"] in ("i63", "i63n", "max"):
+                                out["htlc_state_changes_htlcid_ge_2_63"][st] += 1
+                    can = any(h["st"] == "canceled" for h in x["h"])
+                    if r["a"] == "Settle" and r["res"] == "ok" and r["k"] == k + 1 and can:
+                        out["hold_settled_with_canceled_shard"] += 1
+                    if r["a"] == "Cancel" and r["res"] == "ok" and r["k"] == k + 1 and tr[i - 1]["inv"][k]["st"] == "accepted" \
+                            and any(h["st"] == "canceled" for h in tr[i - 1]["inv"][k]["h"]):
+                        out["hold_canceled_with_canceled_shard"] += 1
+                    if x["st"] == "accepted" and tr[i - 1]["inv"][k]["st"] == "open" and can:
+                        out["accepted_after_canceled_shard"] += 1
+    return out
+
+
 def replay(ck, path):
     """./vcheck C15 --replay <violation dir | trace.ndjson>: judge one stored trace again (no evidence is written)."""
     import sys
@@ -235,15 +383,16 @@ def run(ck):
     extra = json.loads(os.environ.get("VERIF_EXTRA_OVERLAY", "") or "{}") or None   # mutation controls
 
     # ---------------------------------------------------------------- (a) model checking
-    base = {"V": 4, "InvDelta": 6, "RejectDelta": 4, "MaxHeight": 50, "MaxNow": 50, "KeysendQuirk": "FALSE"}
+    base = {"V": 4, "InvDelta": 6, "RejectDelta": 4, "MaxHeight": 50, "MaxNow": 50, "KeysendQuirk": "FALSE",
+            "Margins": "{0, 1}", "ExpiredOffs": "{1}"}
     pairs = MC_THOROUGH if thorough else MC_QUICK
-    if extra and os.environ.get("VERIF_C15_FAST"):
-        pairs = MC_QUICK[1:2]      # mutation-control runs: the code mutation does not change the model
+    if os.environ.get("VERIF_C15_FAST"):   # development / mutation-control runs only
+        pairs = MC_QUICK[2:3]      # mutation-control runs: the code mutation does not change the model
     for k1, k2, nc, amts in pairs:
         c = dict(base, NC=nc, K1=q(k1), K2=q(k2), MaxEvents=0, Amts=amts)
         ck.model_check(SPEC, "InvoiceRegistryMC", "InvoiceRegistryMC.cfg",
                        "InvoiceRegistry %s+%s, %d circuits, amounts %s, all reachable states" % (k1, k2, nc, amts),
-                       constants=c, workers=8, name="mc_%s_%s_%d" % (k1, k2, nc), timeout=1500)
+                       constants=c, workers=8, name="mc_%s_%s_%d_%d" % (k1, k2, nc, len(amts)), timeout=1700)
     ck.cov["exhaustive"] = True
     # the model-level picture of D1: with the quirk the property fails in the model, too
     r = ck.model_check(SPEC, "InvoiceRegistryMC", "InvoiceRegistryMCQuirk.cfg",
@@ -256,16 +405,21 @@ def run(ck):
     # ---------------------------------------------------------------- (b) behaviours
     num = 400 if thorough else 110
     files = ck.generate(SPEC, "InvoiceRegistryGen", "InvoiceRegistryGen.cfg", num, 16,
-                        constants={"MaxLen": 12}, name="gen", timeout=1200)
+                        constants={"MaxLen": 12, "Focus": q("all")}, name="gen", timeout=1200)
     sched = os.path.dirname(files[0])
     shutil.copy(os.path.join(SPEC, "d1_keysend_replay.ndjson"), os.path.join(sched, "b_0.ndjson"))
+    # hold invoices whose sets lose shards before they complete (4 circuit keys: a lost shard + a retry of up to 3)
+    hfiles = ck.generate(SPEC, "InvoiceRegistryGen", "InvoiceRegistryGen.cfg", 260 if thorough else 70, 16,
+                         constants={"MaxLen": 12, "Focus": q("holdsets"), "NC": 4, "MaxNow": 6}, name="gen_hold", timeout=1200)
+    hsched = os.path.dirname(hfiles[0])
 
     # ---------------------------------------------------------------- (c) execution on the real code
     res = ck.go_test("./invoices/", "^TestVerifC15(Replay|Free)$", HARNESS,
-                     env={"VERIF_SCHED": sched, "VERIF_STORES": "kv,sql", "VERIF_RUNS": 250 if thorough else 60},
+                     env={"VERIF_SCHED": "trace=%s,hold=%s" % (sched, hsched), "VERIF_STORES": "kv,sql",
+                          "VERIF_RUNS": 250 if thorough else 60},
                      name="exec", timeout=1500, extra_overlay=extra, race=thorough)
     paths = {(kind, st): os.path.join(res["dir"], "%s_%s.ndjson" % (kind, st))
-             for kind in ("trace", "free") for st in ("kv", "sql")}
+             for kind in ("trace", "hold", "free") for st in ("kv", "sql")}
     if res["rc"] != 0 or not all(os.path.exists(p) for p in paths.values()):
         raise Inconclusive("executor failed:\n" + res["out"][-4000:])
     recs = {k: core.read_ndjson(p) for k, p in paths.items()}
@@ -278,7 +432,7 @@ def run(ck):
         ck.violation("divergence:keysend-replay", "KV and SQL stores disagree on the keysend replay probe: %s" % quirk)
     nviol = 0
     for st in ("kv", "sql"):
-        for kind, fn in (("trace", validate_seq), ("free", validate_par)):
+        for kind, fn in (("trace", validate_seq), ("hold", validate_seq), ("free", validate_par)):
             rs = recs[(kind, st)]
             if kind == "trace":      # the probe has been judged above
                 rs = [r for tr in split_traces(rs)[1:] for r in tr]
@@ -290,24 +444,37 @@ def run(ck):
                 ck.cov["traces_validated_against_impl"] += sum(1 for r in rs if is_reset(r))
             else:
                 nviol += 1
-                report(ck, st, "replay" if kind == "trace" else "free", rs, v, quirk[st])
+                report(ck, st, PARTS[kind], rs, v, quirk[st])
+    classes = class_counts(recs)
+    ck.cov["behaviour_classes"] = classes
     if nviol == 0:
         negative_controls(ck, recs[("trace", "kv")], recs[("free", "kv")], quirk["kv"])
+        new_part_controls(ck, recs, quirk["kv"])
+        # vacuity guards: the classes the check claims to cover were really executed
+        if classes["htlc_state_changes_chan_ge_2_63"]["sql"] < 5 or classes["htlc_state_changes_chan_ge_2_63"]["kv"] < 5:
+            raise Inconclusive("too few HTLC state changes under circuit keys with channel id >= 2^63: %s" % classes)
+        if classes["hold_settled_with_canceled_shard"] < 2 or classes["cancel_set_events"] < 5:
+            raise Inconclusive("hold-set class hardly reached: %s" % classes)
+        if sum(classes["blinded_htlcs"].get(x, 0) for x in ("accept", "settle")) < 5:
+            raise Inconclusive("blinded-path class hardly reached: %s" % classes)
 
     # ---------------------------------------------------------------- evidence
     distinct, changing = set(), 0
     for (kind, st), rs in recs.items():
         for tr in split_traces(rs):
             sig = [(r["a"], r["th"], r["c"], r["k"], r["pl"], r["h"], r["ad"], r["amt"], r["tot"], r["exp"] - r["ht"],
-                    r["set"], r["good"], r["res"], r["why"]) for r in tr]
+                    r["set"], r["good"], r["cs"], r["res"], r["why"]) for r in tr]
             if any(r["res"] in ("settle", "accept", "ok") for r in tr):
-                distinct.add(core.sha(str((tr[0]["k1"], tr[0]["k2"], sig))))
+                distinct.add(core.sha(str((tr[0]["k1"], tr[0]["k2"], tr[0]["kp"], sig))))
     ck.cov["distinct_nontrivial"] = len(distinct)
-    ck.cov["rule"] = ("behaviours generated by TLC -simulate from InvoiceRegistryGen (12 events, kinds of the two invoices "
-                      "drawn per behaviour, HTLC parameters 60% acceptable / 15% acceptable but already expired (expiry below the current height) / 25% from the full product) plus seeded "
-                      "free-running histories with concurrent blocks of two links, each executed on the KV and on the "
-                      "SQLite store; distinct = distinct (kinds, event, parameters, answer) sequences with at least one "
-                      "accept/settle/successful API call")
+    ck.cov["rule"] = ("behaviours generated by TLC -simulate from InvoiceRegistryGen (12 events; kinds of the two invoices and "
+                      "the circuit-key pattern drawn per behaviour; HTLCs of the classes legacy/MPP/blinded path/AMP/keysend, "
+                      "parameters 55% acceptable / 15% acceptable but already expired / 8% CancelSet by the interceptor client / "
+                      "22% from the full product), a second generation focused on hold invoices whose sets lose shards (MPP "
+                      "timeout, CancelSet) before a retry completes them, plus seeded free-running histories with concurrent "
+                      "blocks of two links; each executed on the KV and on the SQLite store, the projection read back from the "
+                      "store after every event; distinct = distinct (kinds, key pattern, event, parameters, answer) sequences "
+                      "with at least one accept/settle/successful API call")
     outcomes = {}
     for rs in recs.values():
         for r in rs:
@@ -316,16 +483,25 @@ def run(ck):
     ck.cov["outcome_histogram"] = outcomes
     tr = split_traces(recs[("trace", "kv")])
     ck.cov["samples"] = [dict(store="kv", kinds=[t[0]["k1"], t[0]["k2"]], events=[compact(r) for r in t[1:5]]) for t in tr[1:3]]
+    hr = split_traces(recs[("hold", "sql")])
+    ck.cov["samples"] += [dict(store="sql", part="holdsets", kinds=[t[0]["k1"], t[0]["k2"]], kp=t[0]["kp"],
+                               events=[compact(r) for r in t[1:7]]) for t in hr[:1]]
     fr = split_traces(recs[("free", "sql")])
     ck.cov["samples"] += [dict(store="sql", driver="free", kinds=[t[0]["k1"], t[0]["k2"]], events=[compact(r) for r in t[1:6]]) for t in fr[:1]]
     ck.cov["trusted_base"] = ["TLC 1.8.0", "CommunityModules Json",
                               "abstraction: hashes/preimages/payment addresses identified with the invoice slot; AMP shares "
                               "abstracted to member/good (executor uses the real amp sharer and records preimage.Hash()==hash)",
-                              "executor projection (resolution kind/outcome string, LookupInvoice state/AmtPaid/HTLC fields)",
+                              "executor projection (resolution kind/outcome string, InvoiceDB.LookupInvoice state/AmtPaid/HTLC "
+                              "fields looked up under the concrete circuit keys; the executor's key table mirrors KeyOf and the "
+                              "Reset record reports the classes of the values used)",
                               "test clock barrier (sentinel timer + tick signal) for auto-release timers"]
     ck.assumptions += [
         "a circuit key is used by one link (one hodl channel) and a replay repeats the HTLC's original parameters",
         "a replay of a circuit key that never reached the invoice is a fresh evaluation (no verdict is remembered for it)",
-        "FinalCltvRejectDelta=4, invoice FinalCltvDelta=6, HtlcHoldDuration=30s, AcceptKeySend=true, AcceptAMP=false, no HTLC interceptor",
-        "invoice expiry watcher kept quiet (own clock, no block notifications); blinded-path invoices not covered",
+        "FinalCltvRejectDelta=4, invoice FinalCltvDelta=6, HtlcHoldDuration=30s, AcceptKeySend=true, AcceptAMP=false; the HTLC "
+        "interceptor client only ever answers CancelSet (never a modified amount)",
+        "invoice expiry watcher kept quiet (own clock, no block notifications)",
+        "a blinded-path invoice is a regular/hold invoice whose payment address is used as path id; blinded HTLCs carry no MPP record",
+        "CancelSet is sent only with an unambiguous invoice reference (for an address/path id indexed for no invoice the KV "
+        "store would cancel the set of the invoice named by the hash, the SQL store finds no invoice)",
         "KV and SQL fail reasons differ for an MPP HTLC whose address is indexed for no invoice (named: RefSQLDiffers)"]
